@@ -3,8 +3,12 @@
 
    REQUEST (one line):
      (conn_outcomes CFG EVENTS TERM VERDICTS CANCEL CONNECT_FAILS START_FAILS BAD_AT [FUEL])
-       CFG           (d9 d10 wrong)   three 0/1 flags: fix_d9, fix_d10, d9_wrong
-                                      (0 0 0) = pinned code, (1 1 0) = planned repairs, (1 1 1) = the trap variant
+       CFG           (d9 d10 wrong) | (d9 d10 wrong k2)
+                                      0/1 flags: fix_d9, fix_d10, d9_wrong, fix_k2; three flags mean fix_k2 = 0
+                                      (0 0 0) = pinned code, (1 1 0) = (1 1 0 0) = D9 and D10 repaired,
+                                      (1 1 0 1) = D9, D10 and K2 repaired (the current tree: Stream records
+                                      s.endedUncancelled, Error() filters on `ctx cancelled && !endedUncancelled`),
+                                      (1 1 1) = the trap variant
        EVENTS        (b ...)          event packets the master sends, in order; 1 = the event completes a
                                       transaction (the handler is called), 0 = it does not; () = none
        TERM          eof | (err CODE) | close | reset | garbage | hang
@@ -45,7 +49,20 @@
      (conn_outcomes (1 1 0) () hang () never 1 0 none)     -> (ok 5 (err nil 0 noconn 0))               D10 repaired
      (conn_outcomes (0 0 0) (0 1 1) (err 1236) () after_return 0 0 none) -> (ok 64 (nil nil 0 closed 0))   K2
      (conn_outcomes (0 0 0) (0 1 1) (err 1236) () never 0 0 none)        -> (ok 63 (nil master 0 closed 0))
-     (conn_outcomes (1 1 1) (1) (err 1236) () never 0 0 none)            -> (ok 30 (nil nil 0 closed 0))     the trap *)
+     (conn_outcomes (1 1 1) (1) (err 1236) () never 0 0 none)            -> (ok 30 (nil nil 0 closed 0))     the trap
+   with the K2 repair:
+     (conn_outcomes (1 1 0 1) (1 1 0) hang (1 0) never 0 0 none)
+       -> (ok 89 (err nil 0 closed 0) (err nil 0 closed 1) (err transport 0 closed 1))               as (1 1 0)
+     (conn_outcomes (1 1 0 1) () hang () never 1 0 none)   -> (ok 5 (err nil 0 noconn 0))               as (1 1 0)
+     (conn_outcomes (1 1 0)   (0 1 1) (err 1236) () after_return 0 0 none) -> (ok 64 (nil nil 0 closed 0))     K2
+     (conn_outcomes (1 1 0 0) (0 1 1) (err 1236) () after_return 0 0 none) -> (ok 64 (nil nil 0 closed 0))     K2
+     (conn_outcomes (1 1 0 1) (0 1 1) (err 1236) () after_return 0 0 none) -> (ok 64 (nil master 0 closed 0))  K2 repaired
+     (conn_outcomes (1 1 0 1) (0 1 1) close () after_return 0 0 none)      -> (ok 64 (nil transport 0 closed 0))
+     (conn_outcomes (1 1 0 1) (0 1 1) eof () after_return 0 0 none)        -> (ok 64 (nil nil 0 closed 0))
+     (conn_outcomes (1 1 0 1) (0 1 1) (err 1236) () never 0 0 none)        -> (ok 63 (nil master 0 closed 0))
+     (conn_outcomes (1 1 0 1) (0 1 1) (err 1236) () (after_deliveries 2) 0 0 none)
+       -> (ok 148 (nil nil 0 closed 0) (nil nil 0 closed 1) (nil master 0 closed 0))    a cancellation that may fall
+                                      before parseEvents returns still hides the reason (the stream may have ended by it) *)
 From GB Require Import Base.Prelude Base.DecText Base.Sexp.
 From GB Require Import Model.Conn Model.ConnExplore.
 From Coq Require Import String.
@@ -58,7 +75,11 @@ Definition as_bools (v : val) : option (list bool) :=
   match as_list v with Some l => map_opt as_bool l | None => None end.
 
 Definition as_cfg (v : val) : option cfg :=
-  match as_bools v with Some [a; b; c] => Some (Cfg a b c) | _ => None end.
+  match as_bools v with
+  | Some [a; b; c] => Some (Cfg a b c false)
+  | Some [a; b; c; d] => Some (Cfg a b c d)
+  | _ => None
+  end.
 
 Definition as_term (v : val) : option terminal :=
   if is_sym "eof" v then Some TEof
